@@ -40,9 +40,9 @@ CHECKS = {
  "C07": dict(
     technique="invariant `every call on a colour of the statement's domain returns finite components and does not panic` judged by TLC trace validation (TraceFinite.tla decides domain membership from the documented bounds in Types.tla with exact arithmetic) over the boundary lattice x API surface",
     category="model_checking",
-    text="Every ordered conversion pair of 19 typed nodes (f32 and f64, with and without alpha) and the clamp family are run on the boundary lattice of each space: every component at min, max, zero, a billionth of the range inside either bound and at quarter points, hues at every sector edge and at +-180/360. TLC decides from the documented bounds whether the recorded input is in the statement's domain (on a bound, zero, or at least 1e-9 of the range away) and then requires a finite, panic-free result.",
+    text="Every ordered conversion pair of 19 typed nodes (f32 and f64, with and without alpha), the clamp family, every operator form of the C10 driver (196 operator/type pairs) and every blend / compositing / BlendWith call of the C08 driver are run on the boundary lattice of each space: every component at min, max, zero, a billionth of the range inside either bound and at quarter points, hues at every sector edge and at +-180/360. TLC decides from the documented bounds whether the recorded input is in the statement's domain (on a bound, zero, or at least 1e-9 of the range away) and then requires a finite, panic-free result.",
     ref="DESIGN.md section 4 C07",
-    note=TRUST + "; documented bounds table in spec/Types.tla; operators, blends, differences and CAM16 are added to this check's surface as their drivers are built (see coverage.explanation of the evidence for what a run covered)"),
+    note=TRUST + "; documented bounds table in spec/Types.tla; component-wise division by a colour or scalar with a zero component is not judged (no finite value exists); colour differences and CAM16 are judged for finiteness by their own checks' relations (a non-finite result cannot satisfy them), not re-run here"),
  "C08": dict(
     technique="TLA+ model of the W3C Compositing and Blending Level 1 formulas in exact dyadic/rational arithmetic (Blend.tla; sqrt only as a squared relation) plus palette's documented Equations table; TLC proves the identities exhaustively on a grid (MC_Blend); the harness enumerates the same grid through the real API; TLC trace validation of every call (TraceBlend.tla)",
     category="model_checking",
